@@ -117,7 +117,7 @@ def _check_focus_inner(case, ctx):
         U.check_shape(data, want_shape, 'focus')
         dxo = wo.dx
         true_dx_x = lam * efl / (dxp * mx)
-        ctx.require(abs(dxo - true_dx_x) <= 1e-12 * true_dx_x, 'focus:dx', 'Wavefront.focus reports dx=%.12g, physical spacing along x is lambda f/(N dx)=%.12g (padded %s)' % (
+        ctx.within(abs(dxo - true_dx_x), 1e-12 * true_dx_x, 'focus:dx', 'Wavefront.focus reports dx=%.12g, physical spacing along x is lambda f/(N dx)=%.12g (padded %s)' % (
             dxo, true_dx_x, (my, mx)))
         I = wo.intensity
         xi_x = np.asarray(I.x)[0, :]
@@ -172,7 +172,7 @@ def _check_focus_inner(case, ctx):
         w = P.Wavefront(f, lam, dxp)
         wo = ctx.call(w.focus_fixed_sampling, efl, dxo, (my, mx), shift=shift_units, method=route)
         data = wo.data
-        ctx.require(abs(wo.dx - dxo) <= 1e-12 * dxo, 'focus_fixed_sampling:dx', 'reported dx %r != requested %r' % (wo.dx, dxo))
+        ctx.within(abs(wo.dx - dxo), 1e-12 * dxo, 'focus_fixed_sampling:dx', 'reported dx %r != requested %r' % (wo.dx, dxo))
     data = np.asarray(data)
     U.check_shape(data, (my, mx), 'focus_fixed_sampling')
     ctx.require(tuple(float(v) for v in shift_arg) == tuple(float(v) for v in shift_units_t), 'focus_fixed_sampling:argument-modified',
@@ -189,7 +189,7 @@ def _check_focus_inner(case, ctx):
         ref = analytic(f, dxp, lam, efl, xi_x, xi_y, norm)
         errs[sgn] = float(np.abs(I - np.abs(ref) ** 2).max()) if np.all(np.isfinite(I)) else float('inf')
     best = min(errs, key=errs.get)
-    ctx.require(errs[best] <= 1e-8 * scale, bucket + (':shift' if shifted else ''),
+    ctx.within(errs[best], 1e-8 * scale, bucket + (':shift' if shifted else ''),
                 '%s %s->%s dx_out=%.6g shift=%r (output units) tilt=%r: intensity is off the analytic curve at the claimed coordinates by %.3g (scale %.3g)%s' % (
                     route, shape, out, dxo, shift_units, case['tilt'], errs[best], scale,
                     '; other sign: %.3g' % errs[-best] if shifted else ''))
@@ -199,7 +199,7 @@ def _check_focus_inner(case, ctx):
         other = 'czt' if route == 'mdft' else 'mdft'
         d2 = np.asarray(ctx.call(P.focus_fixed_sampling, f, dxp, efl, lam, dxo, (my, mx), shift=shift_units, method=other))
         e = float(np.abs(np.abs(d2) ** 2 - I).max())
-        ctx.require(e <= 1e-8 * scale, 'focus_fixed_sampling:methods-disagree-on-shift',
+        ctx.within(e, 1e-8 * scale, 'focus_fixed_sampling:methods-disagree-on-shift',
                     'mdft and czt intensities differ by %.3g for shift %r' % (e, shift_units))
 
 
@@ -291,7 +291,7 @@ def _check_unfocus_inner(case, ctx):
         g = np.asarray(wo.data)
         U.check_shape(g, (my, mx), 'unfocus')
         true_dx = lam * efl / (dxf * mx)
-        ctx.require(abs(wo.dx - true_dx) <= 1e-12 * true_dx, 'unfocus:dx', 'Wavefront.unfocus reports dx=%.12g, physical x spacing %.12g' % (wo.dx, true_dx))
+        ctx.within(abs(wo.dx - true_dx), 1e-12 * true_dx, 'unfocus:dx', 'Wavefront.unfocus reports dx=%.12g, physical x spacing %.12g' % (wo.dx, true_dx))
         X = U.cvec(mx) * wo.dx
         norm = 1 / math.sqrt(my * mx)
         if my == mx:
@@ -320,7 +320,7 @@ def _check_unfocus_inner(case, ctx):
         w = P.Wavefront(F, lam, dxf, space='psf')
         wo = ctx.call(w.unfocus_fixed_sampling, efl, dxp, (py_, px_), shift=sh, method=route)
         g = wo.data
-        ctx.require(abs(wo.dx - dxp) <= 1e-12 * dxp, 'unfocus_fixed_sampling:dx', 'reported dx %r != requested %r' % (wo.dx, dxp))
+        ctx.within(abs(wo.dx - dxp), 1e-12 * dxp, 'unfocus_fixed_sampling:dx', 'reported dx %r != requested %r' % (wo.dx, dxp))
     g = np.asarray(g)
     U.check_shape(g, (py_, px_), 'unfocus_fixed_sampling')
     norm = dxp * dxf / (lam * efl)
@@ -337,7 +337,7 @@ def _check_unfocus_inner(case, ctx):
             ref = (np.exp(2j * np.pi * np.outer(Y, xi_y) / (lam * efl)) @ Fn @ np.exp(2j * np.pi * np.outer(xi_x, X) / (lam * efl))) * norm
             errs[sgn] = float(np.abs(np.abs(g) - np.abs(ref)).max()) if np.all(np.isfinite(g)) else float('inf')
         tol_ = (2e-3 if fdt == 'float32' else 1e-9) * sc
-        ctx.require(min(errs.values()) <= tol_, 'unfocus_fixed_sampling:' + route + ':shift',
+        ctx.within(min(errs.values()), tol_, 'unfocus_fixed_sampling:' + route + ':shift',
                     '%s unfocus of %s onto %s (dx %.6g mm) with shift %r mm: modulus is off the explicit inverse sum at the shifted coordinates by %.3g / %.3g (scale %.3g)' % (
                         route, fshape, (py_, px_), dxp, sh, errs[1], errs[-1], sc))
         # "for both fixed-sampling methods": the other method translates the same way (decidable when the two directions differ in modulus,
@@ -350,7 +350,7 @@ def _check_unfocus_inner(case, ctx):
         g2 = np.asarray(g2)
         U.check_shape(g2, (py_, px_), 'unfocus_fixed_sampling')
         e12 = float(np.abs(np.abs(g) - np.abs(g2)).max()) if np.all(np.isfinite(g2)) else float('inf')
-        ctx.require(e12 <= 2 * tol_, 'unfocus_fixed_sampling:shift:mdft-vs-czt',
+        ctx.within(e12, 2 * tol_, 'unfocus_fixed_sampling:shift:mdft-vs-czt',
                     'mdft and czt unfocus of %s onto %s with shift %r mm differ in modulus by %.3g (scale %.3g): the two methods do not translate the output alike' % (
                         fshape, (py_, px_), sh, e12, sc))
         if abs(errs[1] - errs[-1]) > 10 * tol_:
@@ -439,14 +439,14 @@ def check_scalar(case, ctx):
     x, n, lam, efl, D, z, dxo, c = (case[k] for k in ('x', 'samples', 'wvl', 'efl', 'D', 'z', 'dxo', 'c'))
     ctx.nt(True)
     a = ctx.call(P.pupil_sample_to_psf_sample, x, n, lam, efl)
-    ctx.require(abs(a - lam * efl / (x * n)) <= 1e-12 * abs(a), 'pupil_sample_to_psf_sample', 'value %r != lambda f/(dx N) = %r' % (a, lam * efl / (x * n)))
+    ctx.within(abs(a - lam * efl / (x * n)), 1e-12 * abs(a), 'pupil_sample_to_psf_sample', 'value %r != lambda f/(dx N) = %r' % (a, lam * efl / (x * n)))
     b = ctx.call(P.psf_sample_to_pupil_sample, a, n, lam, efl)
-    ctx.require(abs(b - x) <= 1e-12 * x, 'spacing-conversions:not-inverse', 'psf->pupil(pupil->psf(%r)) = %r' % (x, b))
+    ctx.within(abs(b - x), 1e-12 * x, 'spacing-conversions:not-inverse', 'psf->pupil(pupil->psf(%r)) = %r' % (x, b))
     a2 = ctx.call(P.psf_sample_to_pupil_sample, x, n, lam, efl)
     b2 = ctx.call(P.pupil_sample_to_psf_sample, a2, n, lam, efl)
-    ctx.require(abs(b2 - x) <= 1e-12 * x, 'spacing-conversions:not-inverse', 'pupil->psf(psf->pupil(%r)) = %r' % (x, b2))
+    ctx.within(abs(b2 - x), 1e-12 * x, 'spacing-conversions:not-inverse', 'pupil->psf(psf->pupil(%r)) = %r' % (x, b2))
     q = ctx.call(P.Q_for_sampling, D, z, lam, dxo)
-    ctx.require(abs(q - lam * z / (D * dxo)) <= 1e-12 * q, 'Q_for_sampling', 'Q=%r != lambda z/(D dx)=%r' % (q, lam * z / (D * dxo)))
+    ctx.within(abs(q - lam * z / (D * dxo)), 1e-12 * q, 'Q_for_sampling', 'Q=%r != lambda z/(D dx)=%r' % (q, lam * z / (D * dxo)))
     q2 = ctx.call(P.Q_for_sampling, D * c, z, lam, dxo)
     q3 = ctx.call(P.Q_for_sampling, D, z, lam, dxo * c)
     ctx.require(abs(q2 * c - q) <= 1e-12 * q and abs(q3 * c - q) <= 1e-12 * q, 'Q_for_sampling:proportionality', 'not inverse-proportional in D / dx')
@@ -477,11 +477,11 @@ def check_relay(case, ctx):
         back = 'focus'
     m = w1.data.shape[1]
     d1 = lam * f1 / (dx * m)
-    ctx.require(abs(w1.dx - d1) <= 1e-12 * d1, 'relay:first-dx', 'first propagation reports dx=%r, expected %r' % (w1.dx, d1))
+    ctx.within(abs(w1.dx - d1), 1e-12 * d1, 'relay:first-dx', 'first propagation reports dx=%r, expected %r' % (w1.dx, d1))
     w1.dx = w1.dx * case['edit_dx']           # public attribute; e.g. a magnification applied by the user
     w2 = ctx.call(getattr(w1, back), f2, 1)
     d2 = lam * f2 / (w1.dx * m)
-    ctx.require(abs(w2.dx - d2) <= 1e-12 * d2, 'relay:second-dx',
+    ctx.within(abs(w2.dx - d2), 1e-12 * d2, 'relay:second-dx',
                 '%s(efl=%g) of a plane with dx=%r (reached with efl=%g) reports dx=%r, physical spacing lambda f/(N dx) = %r' % (back, f2, w1.dx, f1, w2.dx, d2))
     # and the data of the round trip is the (padded) input field, whatever the focal lengths
     want = U.embed(f, w1.data.shape)
